@@ -4,6 +4,7 @@ from __future__ import annotations
 
 import asyncio
 import heapq
+import math
 from typing import Any
 
 
@@ -24,8 +25,10 @@ class VirtualLoop(asyncio.SelectorEventLoop):
                 h = heapq.heappop(sched)
                 h._scheduled = False
                 self._timer_cancelled_count -= 1  # type: ignore[attr-defined]
-            if sched and sched[0]._when > self._vtime:
-                self._vtime = sched[0]._when
+            if sched and sched[0]._when >= self._vtime:
+                # one ulp past the timer: the base loop only runs handles with when < time() +
+                # clock_resolution, and at large virtual times that sum rounds back to time()
+                self._vtime = math.nextafter(sched[0]._when, math.inf)
         super()._run_once()  # type: ignore[misc]
 
 
